@@ -3,7 +3,7 @@ CONSTANTS
   Patterns <- PatA
   Counts <- CntQ
   Shifts <- ShA
-  MaxBlocks = 3
+  MaxBlocks = 2
 INVARIANT NormalForm
 INVARIANT ShiftLemma
 INVARIANT Emit
